@@ -232,4 +232,5 @@ def el_from(cfg, v):
     return v if cfg.mc is None else tuple(v)
 
 
-INT_OPERANDS_TINY = lambda p: [0, 1, -1, p, p + 1, -p - 1, 2 * p + 3, 2 ** 400]  # noqa: E731
+# includes several representatives of 0 (division must give 0 for each: inv0 of the residue)
+INT_OPERANDS_TINY = lambda p: [0, 1, -1, p, p + 1, -p - 1, 2 * p + 3, 2 ** 400, -p, 2 * p, p * p, -3 * p, 5 * p ** 3]  # noqa: E731
